@@ -17,9 +17,9 @@ import (
 func id() string { return os.Getenv("VERIF_ID") }
 
 var (
-	universe  = []string{"f1.txt", "f2.txt", "sub/f3.txt", "extra.txt", "sub/extra.txt", "g1.c", "note.md"}
+	universe  = []string{"f1.txt", "f2.txt", "sub/f3.txt", "extra.txt", "sub/extra.txt", "g1.c", "note.md", ".store/s.txt"}
 	literals  = []string{"f1.txt", "f2.txt", "sub/f3.txt"}
-	globPats  = []string{"*.txt", "sub/*.txt", "**/*.txt", "*.c"}
+	globPats  = []string{"*.txt", "sub/*.txt", "**/*.txt", "*.c", "*/*.txt"}
 	contents  = []string{"0", "1", "2"}
 	taskNames = []string{"A", "B", "C"}
 )
@@ -83,6 +83,15 @@ func genCacheCase(t *rapid.T) CacheCase {
 		c.Links = map[string]string{"ln.txt": rapid.SampledFrom([]string{"f2.txt", "sub/f3.txt", "g1.c"}).Draw(t, "link_target")}
 		k := rapid.IntRange(0, n-1).Draw(t, "link_task")
 		c.Tasks[k].Files = append(c.Tasks[k].Files, "ln.txt")
+	}
+	// with probability 1/4 a directory is reachable through a symbolic link: the files below the link
+	// have matching relative paths of their own (the link's target is hidden, so only the link's path counts)
+	if rapid.IntRange(0, 3).Draw(t, "with_dirlink") == 3 {
+		if c.Links == nil {
+			c.Links = map[string]string{}
+		}
+		c.Links["lnd"] = ".store"
+		c.Init[".store/s.txt"] = "0"
 	}
 	// rarely: a dangling link among the files a glob matches (it cannot be hashed; only forced runs get past it)
 	if missingOK() && rapid.IntRange(0, 11).Draw(t, "with_dangling") == 11 {
@@ -380,6 +389,12 @@ func templateCases() []CacheCase {
 			run([]string{"A", "B"}, true, nil), {Op: "delete", File: "zz.txt"}, fin, fin}})
 		out = append(out, CacheCase{Tasks: dang, Init: map[string]string{"a.txt": "0", "b.txt": "0"}, Steps: []Step{
 			run([]string{"A", "B"}, false, nil), {Op: "write", File: "a.txt", Content: "1"}, run([]string{"A"}, true, nil), {Op: "write", File: "a.txt", Content: "0"}, fin, fin}})
+	}
+	// files reached through a link to a directory: their content is part of what the glob names
+	dl := []TaskSpec{{Name: "A", Globs: []string{"*/*.txt"}, NCmds: 1}, {Name: "B", Globs: []string{"**/*.txt"}, NCmds: 1}}
+	for _, fin := range final {
+		out = append(out, CacheCase{Tasks: dl, Init: map[string]string{".store/s.txt": "0", "f1.txt": "0", "sub/f3.txt": "0"}, Links: map[string]string{"lnd": ".store"}, Steps: []Step{
+			run([]string{"A", "B"}, false, nil), {Op: "write", File: ".store/s.txt", Content: "1"}, fin, fin, {Op: "write", File: ".store/s.txt", Content: "0"}, fin}})
 	}
 	// a dependency that is a symbolic link: the target is edited, not the link
 	linked := []TaskSpec{{Name: "A", Files: []string{"ln.txt"}, NCmds: 1}, {Name: "B", Globs: []string{"l*.txt"}, NCmds: 1}}
